@@ -1,10 +1,10 @@
 """C19 -- saved parameters reproduce the circuit after reload (structural clauses: registration discipline)."""
 from ..core import Ctx, Ob, PropSpec
-from ..rules import r10
+from ..rules import r10, r6p
 
 
 def run(ctx: Ctx) -> list[Ob]:
-    return r10.run(ctx) + r10.r10g(ctx)
+    return r10.run(ctx) + r10.r10g(ctx) + r6p.r6p(ctx)
 
 
 SPEC = PropSpec(
@@ -21,12 +21,15 @@ SPEC = PropSpec(
         "necessary condition of 'the dictionary contains every learnable tensor' and of reload reproducing the outputs; R10g "
         "(evaluation purity): no evaluation method of a torch-side module stores anything on self -- a tensor memoised during an "
         "earlier evaluation is not part of the state dict and survives load_state_dict, so the reloaded circuit keeps answering "
-        "from the values it had before."
+        "from the values it had before; R6p (foreign tensors stay behind pointers): a tensor node owned by an already compiled "
+        "circuit (X.deref() / retrieve_compiled_parameter(..)[0]) is only inspected or wrapped in a TorchPointerParameter by the "
+        "backend -- as a regular node of a derived circuit's parameter graph it would be registered a second time (not 'exactly "
+        "once') and re-initialised by the reset_parameters() ending the derived circuit's compilation, overwriting loaded values."
     ),
     not_decided=(
         "torch's own state_dict / load_state_dict semantics; that a fresh compilation enumerates modules in the same order; 'exactly "
         "once' for tensors reachable through pointers of derived circuits; numerical equality of the outputs."
     ),
     run=run,
-    floors={"R10a": 15, "R10b": 12, "R10c": 3, "R10d": 2, "R10e": 3, "R10f": 50, "R10g": 60},
+    floors={"R6p": 4, "R10a": 15, "R10b": 12, "R10c": 3, "R10d": 2, "R10e": 3, "R10f": 50, "R10g": 60},
 )
